@@ -292,6 +292,9 @@ def gen_lang(rng: random.Random) -> Lang:
         if body is None:
             continue
         lang.ops.append({"name": f"d{di}", "nvars": 0, "type": fn(ps, res), "body": (k, body)})
+        if not small_normal_form(lang, ('op', len(lang.ops) - 1), max_nodes=300):
+            lang.ops.pop()      # thrice (thrice thrice) ... : the definition alone is astronomic
+            continue
         di += 1
     return lang
 
